@@ -36,5 +36,23 @@ UNIT = {
          # libclang: a constant array type has an element type and a length
          "requires": ["clang::s_elem(*ty).is_some()", "clang::s_num_elements(*ty).is_some()"],
          "ensures": ["r is Array"]},
+        {"kind": "fn", "file": "bindgen/ir/ty.rs", "name": "incomplete_array_arm", "impl": r"^impl Type$", "impl_nth": 1, "ret": "r",
+         "closure": {"enclosing": "from_clang_ty", "anchor": "CXType_IncompleteArray => {", "nth": 0,
+                     "signature": "fn incomplete_array_arm(ty: &clang::Type, location: clang::Cursor, ctx: &mut BindgenContext) -> (r: TypeKind)"},
+         "subst": [
+             (r"re:(?s)Item::from_ty\((.*?)\)\s*\.unwrap_or_else\(\|_\|\s*\{(.*?)\}\)\s*;", r"match Item::from_ty(\1) { Ok(t_) => t_, Err(_) => {\2} };", 0, "R7 Result::unwrap_or_else (if present)"),
+             (r're:\.expect\(\s*"[^"]*"\s*\)', ".unwrap()", 0, "expect -> unwrap (message dropped; if present)"),
+         ],
+         "requires": ["clang::s_elem(*ty).is_some()"],
+         "ensures": ["r is Array"]},
+        {"kind": "fn", "file": "bindgen/ir/ty.rs", "name": "variable_array_arm", "impl": r"^impl Type$", "impl_nth": 1, "ret": "r",
+         "closure": {"enclosing": "from_clang_ty", "anchor": "CXType_VariableArray | CXType_DependentSizedArray => {", "nth": 0,
+                     "signature": "fn variable_array_arm(ty: &clang::Type, location: clang::Cursor, ctx: &mut BindgenContext) -> (r: TypeKind)"},
+         "subst": [
+             (r"re:(?s)Item::from_ty\((.*?)\)\s*\.unwrap_or_else\(\|_\|\s*\{(.*?)\}\)\s*;", r"match Item::from_ty(\1) { Ok(t_) => t_, Err(_) => {\2} };", 0, "R7 Result::unwrap_or_else (if present)"),
+             (r're:\.expect\(\s*"[^"]*"\s*\)', ".unwrap()", 0, "expect -> unwrap (message dropped; if present)"),
+         ],
+         "requires": ["clang::s_elem(*ty).is_some()"],
+         "ensures": ["r is Pointer"]},
     ],
 }
